@@ -13,8 +13,11 @@ namespace {
 struct State {
     gmlc::concurrency::Barrier* bar;
     int nthreads = 0;
+    int nthreads_prog = 0;
     int arrived[16] = {0};
     int required[16] = {0};
+    long slot[gsim::MAX_THREADS][16] = {{0}};  // plain data: slot[t][g] written before arrival g
+    int len[gsim::MAX_THREADS] = {0};
 };
 State* S;
 
@@ -29,8 +32,14 @@ void body(int t)
             S->arrived[gen]++;
         }
         for (int y = 0; y < op.a; y++) gsim::yield();
+        S->slot[t][gen] = 100 * gen + t;
         if (op.code == OP_WAIT_DROP) S->bar->wait_and_drop();
         else S->bar->wait();
+        // everything the other participants wrote before this generation is visible
+        for (int u = 0; u < S->nthreads_prog; u++)
+            if (u != t && S->len[u] >= gen && S->slot[u][gen] != 100 * gen + u)
+                gsim::fail("stale_publication", "after generation %d thread %d reads %ld from the "
+                           "slot participant %d wrote before arriving", gen, t, S->slot[u][gen], u);
         {
             gsim::Oracle o;
             if (S->arrived[gen] < S->required[gen])
@@ -66,8 +75,10 @@ void run()
     S = &st;
     int n = gsim::prog_nthreads();
     int G = 0, N = 0;
+    st.nthreads_prog = n;
     for (int t = 0; t < n; t++) {
         int len = gsim::prog_len(t);
+        st.len[t] = len;
         if (len > 12) gsim::fail("harness", "too many generations");
         if (len) N++;
         for (int i = 0; i + 1 < len; i++)
